@@ -1,6 +1,8 @@
 #!/bin/sh
 # Background soak: many seeds x all properties, thorough-ish run counts.
 # usage: tools/soak.sh [first_seed] [n_seeds] [workers] [scale]
+# Replay files of anything reported are echoed into the output (one line of
+# JSON each), because the snapshot a background run works in is thrown away.
 HERE="$(cd "$(dirname "$0")/.." && pwd)"
 FIRST=${1:-100}; N=${2:-10}; W=${3:-8}; SCALE=${4:-4}
 cd "$HERE"
@@ -12,6 +14,11 @@ import sys; sys.path.insert(0,'$HERE')
 from sim import registry
 print(registry.machine('$P').TIERS['$P']['quick']['runs']*$SCALE)")
     VERIF_SEED=$s ./check $P --no-evidence --workers $W --runs $Q --wall-cap 1500 2>&1 | grep -E "VIOLATION|HARNESS|signature|^C[0-9]+:" | sed "s/^/seed=$s /"
+    for f in replays/$P-$s-*.json; do
+      [ -f "$f" ] || continue
+      echo "seed=$s REPLAY-JSON $f $(/venv/bin/python -B -c "import json,sys; print(json.dumps(json.load(open('$f'))))")"
+      rm -f "$f"
+    done
   done
   s=$((s+1))
 done
